@@ -65,10 +65,13 @@ theorem den_smul (c : R) (p : LP R) (hp : p.WF) :
     exact ⟨by rw [den_of_iszero hp h]; simp [den], by simp [LP.WF]⟩
   · exact ⟨by rw [den_mk', denL_map_mul]; rfl, WF_mk' _ _⟩
 
-theorem den_inv (p : LP R) (_hp : p.WF) :
+theorem den_inv (p : LP R) (hp : p.WF) :
     den p.inv = invert (den p) ∧ p.inv.WF := by
   unfold LP.inv
-  exact ⟨by rw [den_mk']; exact denL_reverse _ _, WF_mk' _ _⟩
+  split
+  · rename_i h
+    exact ⟨by rw [den_mk', den_of_iszero hp h]; simp [invert], WF_mk' _ _⟩
+  · exact ⟨by rw [den_mk']; exact denL_reverse _ _, WF_mk' _ _⟩
 
 /-! ### coefficients and support -/
 
